@@ -121,13 +121,19 @@ type skylightDirs struct {
 	whash [][]string
 }
 
-func skylightBuild(base string, seed uint64) (*skylightDirs, error) {
+func skylightBuild(base string, seed uint64, thorough bool) (*skylightDirs, error) {
 	realdir.UseCounterClock(1_750_000_000_000)
 	aux := filepath.Join(base, "aux")
 	d := &skylightDirs{}
 	future := time.Date(2099, 1, 1, 0, 0, 0, 0, time.UTC)
-	for i, steps := range [][]int{{100, 156, 44}, {255, 2, 255, 8}, {3}} {
-		short := []string{"alpha", "beta", "gamma"}[i]
+	plans := [][]int{{100, 156, 44}, {255, 2, 255, 8}, {3}}
+	if thorough {
+		// a log with a level-2 tile (tile/2/000.p/1) and x-grouped coordinates are not needed below 1000 tiles;
+		// 65536+300 leaves give tile/1/000 (full), tile/1/001.p/1 and tile/2/000.p/1
+		plans = append(plans, []int{65536, 300})
+	}
+	for i, steps := range plans {
+		short := []string{"alpha", "beta", "gamma", "delta"}[i]
 		l, err := realdir.NewLog(filepath.Join(base, short), aux, "sky.example/"+short, short, seed*11+uint64(i), future)
 		if err != nil {
 			return nil, err
@@ -210,6 +216,9 @@ func (w *skylightWorld) configure(d *skylightDirs, variant int) {
 			{"wit", "wit.sky.example", d.wits[0].Dir, nil, d.whash[0]},
 			{"wit", "logs2.sky.example/wv", d.wits[1].Dir, nil, d.whash[1]},
 		}
+		if len(d.logs) > 3 {
+			es = append(es, ent{"log", "logs.sky.example/delta", d.logs[3].Dir, d.logs[3], nil})
+		}
 	} else {
 		w.home = false
 		es = []ent{
@@ -217,6 +226,9 @@ func (w *skylightWorld) configure(d *skylightDirs, variant int) {
 			{"log", "b.sky.example", d.logs[1].Dir, d.logs[1], nil},
 			{"wit", "a.sky.example/w", d.wits[0].Dir, nil, d.whash[0]},
 			{"wit", "v.sky.example", d.wits[1].Dir, nil, d.whash[1]},
+		}
+		if len(d.logs) > 3 {
+			es = append(es, ent{"log", "d.sky.example", d.logs[3].Dir, d.logs[3], nil})
 		}
 	}
 	nl, nw := 0, 0
@@ -758,7 +770,7 @@ func skylightRun(args []string) int {
 	base := filepath.Join(o.Out, "scratch")
 	os.MkdirAll(base, 0o755)
 	defer realdir.RemoveAll(base)
-	d, err := skylightBuild(base, 5)
+	d, err := skylightBuild(base, 5, o.Tier == "thorough")
 	if err != nil {
 		fmt.Fprintf(os.Stderr, "skylight: building directories: %v\n", err)
 		return 2
